@@ -377,6 +377,14 @@ func checkDoc(c cfg, doc []byte, on result) (viol vlist) {
 		viol.add("panic-off", offR.panicAt, "decoder panicked with capture off: %s [%s]", offR.panicV, offR.panicAt)
 		return
 	}
+	// a range in the capture-off run: class range-without-capture; for the combined HTML decoder, when the
+	// option list of that run compiles to capture=false WITH an initial offset (decoy SetInitialTextOffset
+	// before SetCaptureTextOffsets(false)), it is the htmldefaults forwarding defect (class opts; fixed
+	// finding C16X-O1, patch c16opts-1 — no longer tolerated)
+	rwcClass, rwcSub := "range-without-capture", ""
+	if c.format == "html" && initThenOff(specOf(offC, doc)) {
+		rwcClass, rwcSub = "opts", "capture-off-ignored-after-initial"
+	}
 	if len(offR.stmts) != len(on.stmts) || offR.verdict != on.verdict {
 		viol.add("capture-changes-outcome", recoveredKind(on.err, offR.err), "capture changes the outcome: %d statements/%s (%v) with, %d/%s (%v) without", len(on.stmts), on.verdict, on.err, len(offR.stmts), offR.verdict, offR.err)
 	} else if orderFree[c.format] {
@@ -388,7 +396,7 @@ func checkDoc(c cfg, doc []byte, on result) (viol vlist) {
 		for i := range offR.stmts {
 			for k := range offR.stmts[i].r {
 				if offR.stmts[i].r[k].ok {
-					viol.add("range-without-capture", "", "range reported although capture is off (statement %d %s)", i, slotName[k])
+					viol.add(rwcClass, rwcSub, "range reported although capture is off (statement %d %s; option list %s)", i, slotName[k], specOf(offC, doc).wire())
 				}
 			}
 		}
@@ -399,7 +407,7 @@ func checkDoc(c cfg, doc []byte, on result) (viol vlist) {
 			}
 			for k := range offR.stmts[i].r {
 				if offR.stmts[i].r[k].ok {
-					viol.add("range-without-capture", "", "range reported although capture is off (statement %d %s)", i, slotName[k])
+					viol.add(rwcClass, rwcSub, "range reported although capture is off (statement %d %s; option list %s)", i, slotName[k], specOf(offC, doc).wire())
 				}
 			}
 		}
